@@ -514,3 +514,6 @@ def check_one(case):
         return {"outcome": "same" if a == b else "different", "nt": a == b and a[0] == "ok", "viol": viol, "tr": ntr}
     # beyond the documented limits truncation is allowed (negative control: shows the limit is live)
     return {"outcome": "truncated-as-documented" if a != b else "same-beyond-limit", "nt": False, "viol": [], "tr": ntr}
+
+# as-built additions of the seventh wave (reported with the bound in the evidence)
+BOUND = {k: v + "; seventh wave: " + "the frozen corpus rendered to md / csv / xls / xlsx by the harness's writers" for k, v in BOUND.items()}
